@@ -32,7 +32,13 @@ def v_ladder(ctx, tname, adtp, maxn):
     it = f.hir_fn("try_from_floats", self_ty=adtp)
     ctx.fn(it)
     body = strip(it["body"])
-    lets = [s for s in body["stmts"] if s["k"] == "Let"]
+    def is_step(s_):
+        m_ = strip(s_["init"]) if s_.get("init") else None
+        return bool(m_) and m_["k"] == "Match" and strip(m_["scrut"])["k"] == "MethodCall" and strip(m_["scrut"])["method"] == "next"
+    all_lets = [s for s in body["stmts"] if s["k"] == "Let"]
+    lets = [s for s in all_lets if is_step(s)]
+    # other `let`s are named temporaries: read through (`let t = Self::new_triple(p, d, q); Ok(t)`)
+    temps = hir.let_env({"k": "Block", "stmts": [s for s in all_lets if not is_step(s)], "expr": None})
     nexts = hir.find_calls(it["body"], "next")
     ctx.ob("V-CTOR", "%s::try_from_floats reads at most %d items" % (tname, maxn), len(nexts) == maxn and len(lets) == maxn, "%d next() calls" % len(nexts))
     bound = []
@@ -55,7 +61,7 @@ def v_ladder(ctx, tname, adtp, maxn):
         ctx.ob("V-CTOR", "%s::try_from_floats step %d" % (tname, k), ok and some_ok and none_ok,
                "item %d must be validated before use and its absence must return %s(%s)" % (k, NAMES[k], bound))
         bound.append(s["pat"].get("name"))
-    tail = hir.last_expr(it["body"])
+    tail = hir.through_lets(hir.last_expr(it["body"]), temps)
     ok = tail["k"] == "Call" and hir.callee_name(tail) == "Ok"
     if ok:
         inner = strip(tail["args"][0])
@@ -100,7 +106,7 @@ def run(ctx):
             it = f.hir_fn(NAMES[k], self_ty=adtp)
             ctx.fn(it)
             params = [p.get("name") for p in it["params"]]
-            b = hir.last_expr(it["body"])
+            b = hir.through_lets(hir.last_expr(it["body"]), hir.let_env(it["body"]))       # named temporaries read through
             if k == 0:
                 ok = b["k"] == "Path" and hir.variant_of(b["path"]) == byar[0]
                 ctx.ob("V-CTOR", "%s::%s" % (tname, NAMES[k]), ok, "")
